@@ -1,5 +1,5 @@
 (** C05 — simplification preserves meaning and terminates.  Property theorems only.
-    Proved (fragment 1 of the well-formedness predicate SimpProofs.wf: constants, identifiers, memory cells with any well-formed
+    Proved (fragment 1 of the well-formedness predicate SimpProofs.wf, which also carries an arbitrary predicate Q that every identifier of the tree satisfies — the simplifier invents no identifier —: constants, identifiers, memory cells with any well-formed
     address, conditionals, the n-ary operators + * ^ & | on operands of one width, unary and binary minus): for EVERY such tree,
     every fuel and every result the model Simp.simp returns, the result is again well formed, has the same width, and has the
     same value under every valuation of identifiers, every memory and every interpretation of uninterpreted operators.
@@ -14,14 +14,14 @@ From Mx Require Import Expr Simp SimpProofs.
 Import ListNotations.
 Open Scope Z_scope.
 
-Theorem C05_simp_sound_fragment1 : forall fuel e e', wf e = true -> simp fuel e = Ok e' ->
-  wf e' = true /\ size e' = size e /\ forall rho mu iota, eval rho mu iota e' = eval rho mu iota e.
+Theorem C05_simp_sound_fragment1 : forall (Q : string -> Z -> bool -> bool -> bool) fuel e e', wf Q e = true -> simp fuel e = Ok e' ->
+  wf Q e' = true /\ size e' = size e /\ forall rho mu iota, eval rho mu iota e' = eval rho mu iota e.
 Proof. exact simp_sound_frag1. Qed.
 Print Assumptions C05_simp_sound_fragment1.
 
 (** the single rewriting step, on its own *)
-Theorem C05_one_step_sound : forall rho mu iota e e', wf e = true -> simp1 e = Ok e' ->
-  wf e' = true /\ size e' = size e /\ eval rho mu iota e' = eval rho mu iota e.
+Theorem C05_one_step_sound : forall (Q : string -> Z -> bool -> bool -> bool) rho mu iota e e', wf Q e = true -> simp1 e = Ok e' ->
+  wf Q e' = true /\ size e' = size e /\ eval rho mu iota e' = eval rho mu iota e.
 Proof. exact simp1_good. Qed.
 Print Assumptions C05_one_step_sound.
 
@@ -29,7 +29,7 @@ Print Assumptions C05_one_step_sound.
 Example C05_nonvacuous :
   let a := EId "a" 32 false true in let b := EId "b" 32 false true in
   let e := EOp "+" [EOp "+" [a; EInt false 32 3]; EOp "-" [EOp "-" [b]]; EInt false 32 4294967293; EOp "^" [b; b]; EOp "-" [a]] in
-  wf e = true /\ simp 20 e = Ok b.
+  wf (fun _ _ _ _ => true) e = true /\ simp 20 e = Ok b.
 Proof. vm_compute. split; reflexivity. Qed.
 (** the shift constant folds repaired in /repo (fix: bca1ceb) stay instances, outside fragment 1 *)
 Example C05_shift_fold : simp 10 (EOp ">>" [EInt false 32 16; EInt false 32 1]) = Ok (EInt false 32 8) /\
